@@ -1690,7 +1690,18 @@ write_module_support(ostream &out, ostream *out_h, InterrogateModuleDef *def) {
         out << "  PyModule_AddIntConstant(module, \"" << name2 << "\", " << value << ");\n";
       }
     } else {
-      string value = iman.get_definition();
+      // The definition is arbitrary text; escape it to form a string literal.
+      string value;
+      for (char c : iman.get_definition()) {
+        if (c == '"' || c == '\\') {
+          value += '\\';
+          value += c;
+        } else if (c == '\n') {
+          value += "\\n";
+        } else {
+          value += c;
+        }
+      }
       out << "  PyModule_AddStringConstant(module, \"" << name1 << "\", \"" << value << "\");\n";
       if (name1 != name2) {
         out << "  PyModule_AddStringConstant(module, \"" << name2 << "\", \"" << value << "\");\n";
